@@ -268,6 +268,9 @@ class Float(Domain):
 
     # Transform is -log(1 - x)
     class _ReverseLogUniform(LogUniform):
+        def __str__(self):
+            return "ReverseLogUniform"
+
         def sample(
             self,
             domain: "Float",
